@@ -136,6 +136,8 @@ func genShape(c *sim.Case, label string, w *sim.World) *sim.Behaviour {
 	}
 	b.TokenType = sim.PickStr(c, label+".tt", "Bearer", "bearer", "BEARER", "bEaReR")
 	w.IdP.AtHash = sim.Bool(c, label+".at_hash")
+	w.IdP.RichCodes = sim.Bool(c, label+".rich-codes")
+	w.IdP.FullMetadata = sim.Bool(c, label+".full-metadata")
 	// RFC 6749 5.1 shows "application/json;charset=UTF-8"; media types are case-insensitive and may carry parameters
 	b.RespContentType = sim.PickStr(c, label+".ct", "", "", "application/json;charset=UTF-8", "application/json; charset=utf-8", "Application/JSON")
 	if sim.Bool(c, label+".extra") {
